@@ -55,6 +55,7 @@ struct uevdef { long t, pr; struct instr in; };
 struct program {
     long id; int np, nres, nuev;
     long poolcap, bufcap, oqcap, pqcap;
+    int bufunit;                /* buffer amounts are in units of 2^bufunit (to reach the top of the uint64 range) */
     struct pdef p[MAXP + 1];
     struct uevdef uev[MAXUEV + 1];
 };
@@ -117,6 +118,9 @@ static int guard_of(const void *rgp)
 }
 
 static long now(void) { return (long)cmb_time(); }
+#define BUNIT(x) (((uint64_t)(x)) << P.bufunit)
+static long bunits(uint64_t v) { return (v == CMB_UNLIMITED || v > (UINT64_MAX >> 1 << 1)) ? -1 : (long)(v >> P.bufunit); }
+static bool bexact(uint64_t v) { return P.bufunit == 0 || (v & ((UINT64_C(1) << P.bufunit) - 1u)) == 0u; }
 static int slist_len(const struct cmi_slist_head *h) { int n = 0; while (h->next != NULL) { n++; h = h->next; } return n; }
 
 /* ---------- snapshot of everything the public queries and public fields show */
@@ -146,12 +150,13 @@ static void snap(void)
     fprintf(out, "],\"pool\":{\"inuse\":%llu,\"avail\":%llu,\"held\":[", (unsigned long long)cmb_resourcepool_in_use(pool),
             (unsigned long long)cmb_resourcepool_available(pool));
     for (int i = 1; i <= P.np; i++) fprintf(out, "%s%llu", i > 1 ? "," : "", (unsigned long long)cmb_resourcepool_held_by_process(pool, proc[i]));
-    fprintf(out, "]},\"buf\":{\"level\":%llu,\"space\":%llu},\"amnt\":[", (unsigned long long)cmb_buffer_level(buf), (unsigned long long)cmb_buffer_space(buf));
-    for (int i = 1; i <= P.np; i++) fprintf(out, "%s%llu", i > 1 ? "," : "", (unsigned long long)amnt[i]);
+    fprintf(out, "]},\"buf\":{\"level\":%ld,\"space\":%ld,\"exact\":%s},\"amnt\":[", bunits(cmb_buffer_level(buf)),
+            P.bufcap < 0 ? -1L : bunits(cmb_buffer_space(buf)), (bexact(cmb_buffer_level(buf)) ? "true" : "false"));
+    for (int i = 1; i <= P.np; i++) fprintf(out, "%s%ld", i > 1 ? "," : "", bunits(amnt[i]));
     /* object queue contents through the position query */
-    fprintf(out, "],\"oq\":{\"len\":%llu,\"space\":%llu,\"pos\":[", (unsigned long long)cmb_objectqueue_length(oq), (unsigned long long)cmb_objectqueue_space(oq));
+    fprintf(out, "],\"oq\":{\"len\":%llu,\"space\":%lld,\"pos\":[", (unsigned long long)cmb_objectqueue_length(oq), P.oqcap < 0 ? -1LL : (long long)cmb_objectqueue_space(oq));
     for (int o = 1; o < MAXOBJ; o++) fprintf(out, "%s%llu", o > 1 ? "," : "", (unsigned long long)cmb_objectqueue_position(oq, (void *)(intptr_t)o));
-    fprintf(out, "]},\"pq\":{\"len\":%llu,\"space\":%llu,\"pos\":[", (unsigned long long)cmb_priorityqueue_length(pq), (unsigned long long)cmb_priorityqueue_space(pq));
+    fprintf(out, "]},\"pq\":{\"len\":%llu,\"space\":%lld,\"pos\":[", (unsigned long long)cmb_priorityqueue_length(pq), P.pqcap < 0 ? -1LL : (long long)cmb_priorityqueue_space(pq));
     for (int k = 0; k < nallpqh; k++) fprintf(out, "%s[%llu,%llu]", k ? "," : "", (unsigned long long)allpqh[k], (unsigned long long)cmb_priorityqueue_position(pq, allpqh[k]));
     fprintf(out, "]},\"gq\":[");
     for (int g = 1; g < NGUARD; g++) {
@@ -188,9 +193,9 @@ static void log_hist(int o)
     if (ts == NULL) return;
     const uint64_t n = ts->ds.count;
     fprintf(out, "{\"e\":\"Hist\",\"o\":%d,\"t\":%ld,\"n\":%llu,\"xs\":[", o, now(), (unsigned long long)n);
-    for (uint64_t k = 0; k < n && k < 200u; k++) fprintf(out, "%s%ld", k ? "," : "", (long)ts->ds.xa[k]);
+    for (uint64_t k = 0; k < n && k < 5000u; k++) fprintf(out, "%s%ld", k ? "," : "", (long)ts->ds.xa[k]);
     fprintf(out, "],\"ts\":[");
-    for (uint64_t k = 0; k < n && k < 200u; k++) fprintf(out, "%s%ld", k ? "," : "", (long)ts->ta[k]);
+    for (uint64_t k = 0; k < n && k < 5000u; k++) fprintf(out, "%s%ld", k ? "," : "", (long)ts->ta[k]);
     /* the library's time-weighted mean, scaled by the total duration: sum of value*duration, rounded */
     long wsum = 0, wtot = 0;
     if (n > 0u) {
@@ -335,10 +340,10 @@ static bool exec_instr(int me, const struct instr *in)
     }
     else if (is_op(in, "bput") || is_op(in, "bget")) {
         if (a0 < (is_op(in, "bput") ? 1 : 0)) { log_skip(me, in, "bad-amount"); return true; }
-        amnt[me] = (uint64_t)a0;
+        amnt[me] = BUNIT(a0);
         log_call(me, in);
         const int64_t sig = is_op(in, "bput") ? cmb_buffer_put(buf, &amnt[me]) : cmb_buffer_get(buf, &amnt[me]);
-        const long rep = (long)amnt[me];
+        const long rep = bexact(amnt[me]) ? bunits(amnt[me]) : -7;
         amnt[me] = 0u;
         log_ret(me, in, (long)sig, rep, 0);
     }
@@ -526,7 +531,18 @@ static void *procfn(struct cmb_process *me_p, void *ctx)
     ntimers[me] = 0;
     snap();
     for (int k = 0; k < P.p[me].n; k++) {
-        if (!exec_instr(me, &(P.p[me].code[k]))) break;
+        const struct instr *in = &(P.p[me].code[k]);
+        if (strcmp(in->op, "rep") == 0) {
+            /* rep <n> <m>: run the next m instructions n times (long histories: data arrays grow at 1024, 2048, ...) */
+            const int m = (int)in->a[1];
+            bool go = true;
+            for (long r = 0; r < in->a[0] && go; r++)
+                for (int j = 1; j <= m && k + j < P.p[me].n && go; j++) go = exec_instr(me, &(P.p[me].code[k + j]));
+            if (!go) break;
+            k += m;
+            continue;
+        }
+        if (!exec_instr(me, in)) break;
     }
     fprintf(out, "{\"e\":\"Return\",\"p\":%d,\"val\":%d,\"t\":%ld}\n", me, 100 + me, now());
     fflush(out);
@@ -562,7 +578,8 @@ static bool read_program(FILE *f)
         if (strncmp(line, "prog", 4) == 0) { sscanf(line, "prog %ld", &P.id); started = true; P.nres = 1; P.poolcap = 2; P.bufcap = 2; P.oqcap = 1; P.pqcap = 1; }
         else if (!started) continue;
         else if (strncmp(line, "cap", 3) == 0) {
-            sscanf(line, "cap res=%d pool=%ld buf=%ld oq=%ld pq=%ld", &P.nres, &P.poolcap, &P.bufcap, &P.oqcap, &P.pqcap);
+            sscanf(line, "cap res=%d pool=%ld buf=%ld oq=%ld pq=%ld bufunit=%d", &P.nres, &P.poolcap, &P.bufcap, &P.oqcap, &P.pqcap, &P.bufunit);
+            if (P.bufunit < 0 || P.bufunit > 62) P.bufunit = 0;
         }
         else if (strncmp(line, "proc", 4) == 0) {
             int pid, prio, as;
@@ -590,8 +607,8 @@ static bool read_program(FILE *f)
 
 static void log_prog(void)
 {
-    fprintf(out, "{\"e\":\"Prog\",\"id\":%ld,\"np\":%d,\"nres\":%d,\"poolcap\":%ld,\"bufcap\":%ld,\"oqcap\":%ld,\"pqcap\":%ld,\"prio\":[",
-            P.id, P.np, P.nres, P.poolcap, P.bufcap, P.oqcap, P.pqcap);
+    fprintf(out, "{\"e\":\"Prog\",\"id\":%ld,\"np\":%d,\"nres\":%d,\"poolcap\":%ld,\"bufcap\":%ld,\"oqcap\":%ld,\"pqcap\":%ld,\"bufunit\":%d,\"prio\":[",
+            P.id, P.np, P.nres, P.poolcap, P.bufcap, P.oqcap, P.pqcap, P.bufunit);
     for (int i = 1; i <= P.np; i++) fprintf(out, "%s%d", i > 1 ? "," : "", P.p[i].prio);
     fprintf(out, "],\"auto\":[");
     for (int i = 1; i <= P.np; i++) fprintf(out, "%s%d", i > 1 ? "," : "", P.p[i].autostart);
@@ -614,7 +631,7 @@ static void run_program(void)
     cmi_verif_sink = sink;
     for (int r = 1; r <= P.nres; r++) { res[r] = cmb_resource_create(); char nm[8]; snprintf(nm, sizeof nm, "R%d", r); cmb_resource_initialize(res[r], nm); }
     pool = cmb_resourcepool_create(); cmb_resourcepool_initialize(pool, "Pool", (uint64_t)P.poolcap);
-    buf = cmb_buffer_create(); cmb_buffer_initialize(buf, "Buf", P.bufcap < 0 ? CMB_UNLIMITED : (uint64_t)P.bufcap);
+    buf = cmb_buffer_create(); cmb_buffer_initialize(buf, "Buf", P.bufcap < 0 ? CMB_UNLIMITED : BUNIT(P.bufcap));
     oq = cmb_objectqueue_create(); cmb_objectqueue_initialize(oq, "OQ", P.oqcap < 0 ? CMB_UNLIMITED : (uint64_t)P.oqcap);
     pq = cmb_priorityqueue_create(); cmb_priorityqueue_initialize(pq, "PQ", P.pqcap < 0 ? CMB_UNLIMITED : (uint64_t)P.pqcap);
     cond = cmb_condition_create(); cmb_condition_initialize(cond, "Cond");
@@ -632,7 +649,7 @@ static void run_program(void)
         running_pid = 0;
         fprintf(out, "{\"e\":\"Disp\",\"t\":%ld}\n", now());
         snap();
-        if (++guard > 400) {
+        if (++guard > (P.id >= 900000 ? 20000 : 400)) {
             /* a valid but non-terminating program (e.g. processes restarting each other): stop observing */
             fprintf(out, "{\"e\":\"Runaway\"}\n{\"e\":\"EndProg\",\"id\":%ld}\n", P.id);
             fflush(out);
